@@ -179,8 +179,29 @@ def probe(fn, shp, dt, rng, field, mode="random"):
     return None, nontrivial
 
 
+class _no_jit:
+    """build operators without `LinearOperator.jit()` (which derives the adjoint at construction): lets the search
+    evaluate the forward map of an operator whose adjoint can no longer be derived because the map stopped being linear"""
+
+    def __enter__(self):
+        from scico.linop import LinearOperator
+
+        self.cls, self.old = LinearOperator, LinearOperator.jit
+        LinearOperator.jit = lambda self_: None
+        return self
+
+    def __exit__(self, *a):
+        self.cls.jit = self.old
+
+
 def _view_fn(cls, cfg, view):
-    A = ops.build(cls, cfg)
+    try:
+        A = ops.build(cls, cfg)
+    except Exception:  # noqa: BLE001
+        if view != "eval":
+            raise
+        with _no_jit():
+            A = ops.build(cls, cfg)
     for v, fn, shp, dt in ops.views(A, [view]):
         if isinstance(fn, Exception):
             raise fn
@@ -242,15 +263,11 @@ def generate(ctx):
     _STATE.update(records=records, programs=programs, mods=mods, index=index)
     ctx.extra["translator"] = stats
     ctx.extra["primitive_table"] = {k: v for k, v in sorted(ir.prim_table().items(), key=lambda kv: kv[1]) if any(k in e["prog"].prims for e in programs.values())}
-    # every class must contribute at least one translated forward program and one translated adjoint
     have = {}
     for r in records:
         if r.get("status") == "ok":
             have.setdefault(r["cls"], set()).add(r["view"])
-    missing = [c for c in ops.all_classes() if not {"eval", "adj"} <= have.get(c, set())]
     ctx.extra["classes"] = {c: sorted(v) for c, v in have.items()}
-    if missing:
-        raise common.Infra(f"no translated eval+adj program for classes {missing}")
     return mods
 
 
@@ -630,7 +647,12 @@ def search(ctx, model, why):
     if why is not None:
         for en in index.get(why["module"], []):
             if en["kind"] == "failure":
-                todo.append(en["record"])
+                r = en["record"]
+                if r.get("config") is not None:
+                    todo.append(r)
+                if r["status"] in ("build-error", "not-constructible"):
+                    # probe the forward maps of (other) configurations of that class as well
+                    todo += [q for q in records if q["cls"] == r["cls"] and q.get("config") is not None and q["status"] == "build-error"][:6]
             elif not en["ok"]:
                 todo += [records[i] for i in en["users"]]
         if not todo:  # the module failed although the mirror accepted everything: probe all its programs
